@@ -19,8 +19,9 @@ fn main() {
         // child process of the C20 check: the very first temp_file_name calls of a process, made concurrently
         let threads: usize = args.get(2).and_then(|s| s.parse().ok()).unwrap_or(2);
         let calls: usize = args.get(3).and_then(|s| s.parse().ok()).unwrap_or(1);
-        let part = args.get(4).cloned().unwrap_or_default();
-        std::process::exit(props::c20::first_calls_child(threads, calls, &part));
+        // name parts separated by the unit separator; thread t uses part t mod the number of parts
+        let parts: Vec<String> = args.get(4).cloned().unwrap_or_default().split('\u{1f}').map(|s| s.to_string()).collect();
+        std::process::exit(props::c20::first_calls_child(threads, calls, &parts));
     }
     let id = args[2].clone();
     let mut tier = Tier::Quick;
